@@ -10,6 +10,7 @@ import (
 
 	"github.com/vapourismo/knx-go/knx/knxnet"
 	"github.com/vapourismo/knx-go/verifmc/mc"
+	"verifh/enum/refenc"
 )
 
 // Sent is one frame handed to the socket by the library.
@@ -120,8 +121,24 @@ func (s *Sock) Deliver(v knxnet.Service) {
 		return
 	}
 	defer func() { recover() }() // the socket may be closed while the queue operation is pending
+	// The frame as the octets a foreign stack puts on the wire (independent reference encoder): if
+	// the library's decoder turns those down, the real receiver drops the frame and the client never
+	// sees it - so it is dropped here too, and the event is judged by every scenario's oracle.
+	if raw, err := refenc.Encode(v); err == nil {
+		var d knxnet.Service
+		if _, err := knxnet.Unpack(raw, &d); err != nil {
+			mc.Log(WireRejected{Describe(v), err.Error()})
+			return
+		}
+	}
 	s.q.Send(v)
 }
+
+// WireRejected: a well-formed frame (reference encoding of the value the scenario delivers) was
+// rejected by the library's decoder.
+type WireRejected struct{ Frame, Err string }
+
+func (w WireRejected) String() string { return "WIRE-REJECTED " + w.Frame + ": " + w.Err }
 
 // Kill simulates the death of the socket (read error): Inbound closes, later sends fail.
 func (s *Sock) Kill() {
